@@ -42,6 +42,20 @@ CHECKS["C19"] = {
              "socket etc.) is not modelled."),
 }
 
+CHECKS["C12"] = {
+    "engine": "sa",
+    "technique": "AST rule set: dunder/operator agreement per return branch, exact changeFrame formula shape, path-sensitive ordering typestate",
+    "design_ref": "DESIGN.md section 4 C12",
+    "text": ("Decides the structural necessary conditions of the wrench/screw laws for all operands: every return branch of "
+             "the arithmetic dunders applies that dunder's operator to (self, other) in the implied order (vector-space "
+             "laws for scalar/array/object operands); Screw.changeFrame is Ad(inv(new)*old) and Wrench.changeFrame its "
+             "transposed dual with the frame recorded on exactly the paths that rewrite the payload and the default old "
+             "frame read first; force-at-a-point wrenches are [p x f ; f]; mixed-frame arithmetic converts a copy of the "
+             "right operand into the left operand's frame. The numerical identities (A->B->C = A->C to 1e-8) then rest "
+             "on the SE(3) algebra decided under C01/C04 and are not themselves decided."),
+    "note": "Trusted: globalToLocal(a,b)=inv(a)*b and adjoint() (decided under C01/C04); NumPy broadcasting semantics.",
+}
+
 _PENDING = "rule module not yet built in this round (see DESIGN.md section 4 for the planned static rules)"
 for _i in range(1, 21):
     _p = "C%02d" % _i
